@@ -1,11 +1,11 @@
 CONSTANTS
-  NC = 2
-  NL = 1
+  NC = 1
+  NL = 0
   WRun = {}
   WTerm = {}
   QCap = 4
   MaxIters = 2
-  MaxStart = 1
+  MaxStart = 2
   ParentCancels = TRUE
   Presents = {{"start","run","stop"}}
   RunModes = {"any"}
